@@ -241,7 +241,8 @@ def r3_coercions(chk: Check):
     ok = bool(ts)
     for t in ts:
         if t.end == f"return {V}":
-            ok = ok and t.has(f"isinstance({V}, Config)", True) and (t.has(f"isinstance({V}, self.basetype)", True) or t.has(f"isinstance({V}, types)", True))
+            # (returning the value when it is None is `return None`)
+            ok = ok and (t.has(f"{V} is None", True) or (t.has(f"isinstance({V}, Config)", True) and (t.has(f"isinstance({V}, self.basetype)", True) or t.has(f"isinstance({V}, types)", True))))
         elif t.end == "return None":
             ok = ok and t.has(f"{V} is None", True)
         else:
